@@ -22,9 +22,9 @@ import (
 // (seed C03-11: the csv2 line buffer pre-sized with the declared `rows`).
 
 var c03reviewedK16 = map[string]c03argued{
-	"(*extensions/omniv21/fileformat/edi.ediReader).shrinkStack subtracts 1 from len(stack)":          {2, "shrinkStack is only called by segNext under `len(r.stack) <= 1 -> return`, i.e. with at least two entries (the explicit-panic obligations of stackTop cover the same invariant)"},
+	"(*extensions/omniv21/fileformat/edi.ediReader).shrinkStack subtracts 1 from len(stack)":            {2, "shrinkStack is only called by segNext under `len(r.stack) <= 1 -> return`, i.e. with at least two entries (the explicit-panic obligations of stackTop cover the same invariant)"},
 	"(*extensions/omniv21/fileformat/flatfile.HierarchyReader).shrinkStack subtracts 1 from len(stack)": {2, "shrinkStack is only called by recNext under `len(r.stack) <= 1 -> return`, i.e. with at least two entries"},
-	"idr.removeLastFilterInXPath subtracts 1 from len(parameter xpath)":                                {1, "the index expression is the initial value of a loop counter that is tested with `i >= 0` before it is used as an index; for an empty string the loop body never runs"},
+	"idr.removeLastFilterInXPath subtracts 1 from len(parameter xpath)":                                 {1, "the index expression is the initial value of a loop counter that is tested with `i >= 0` before it is used as an index; for an empty string the loop body never runs"},
 }
 
 func lenLikeOperand(v ssa.Value) (ssa.Value, string, bool) {
